@@ -137,6 +137,10 @@ def analyse(ck, tier, builds, prefix=''):
                 if len(buf.stores) != 1:
                     ck.ob(key, 'UNDECIDED', f"plane {p} has {len(buf.stores)} store summaries (expected one)")
                     continue
+                from .c11 import every_sample_written
+                why = every_sample_written(it, planes, p, st.pc)
+                if why is not None:
+                    ck.ob(key + '/coverage', 'REFUTED' if 'lemma side condition' in why else 'UNDECIDED', f"not every sample of plane {p} is stored (samples keep the fill value): {why}")
                 val = R.resolve(buf.stores[0].value)
                 an = Analyzer(atom_range=lambda n: (Fr(-1, 2), Fr(3, 2)) if X.is_float(n.ty) else None)
                 import math
